@@ -183,6 +183,7 @@ def run(tier: str) -> int:
     rep.distinct = {(m[1], json.dumps(m[0]["hist"], sort_keys=True)) for m in meta}
     rep.extra.update({"identical_bytecode": sum(1 for r in recs if r and r.get("explain_equal")),
                       "decided_by_execution": sum(1 for r in recs if r and not r.get("explain_equal") and r.get("dbs")),
+                      "programs_without_meaning": sum(1 for r in recs if r and r.get("prepare") and r.get("prepare") == r.get("refprepare")),
                       "databases": ndb, "sqlite_version": sqlite3.sqlite_version})
     bad = []
     for res in results:
@@ -199,7 +200,7 @@ def run(tier: str) -> int:
                                "engine": rec["prepare"] or rec.get("witness")},
                         what="SQLite rejects the rendered statement" if v["fault"] == "prepare-error" else "the rendered statement and its reference transcription give different results")
     badids = {v["tid"] for v in bad}
-    ok = [e for e in events if e["tid"] not in badids]
+    ok = [e for e in events if e["tid"] not in badids and not e["prepare"]]
     for e in ok[:: max(1, len(ok) // 4)][:4]:
         (tid, q, shape, _, _), rec = byid[e["tid"]]
         rep.sample({"kind": q["kind"], "shape": shape, "library_sql": rec["sql"], "reference_sql": q["ref_shaped"],
